@@ -20,6 +20,7 @@ from pmon.gen import strings as S
 from pmon.ref import lexer as R
 
 ID = 'C18'
+PYTEST_LAW = 'C18'     # also run /repo's own tests with this property's law attached
 RULE = ('quote: exhaustive strings of length<=3 (quick) / <=4 (thorough) over the 16-character '
         'alphabet {a " \\ LF TAB CR NUL e-acute U+2028 ( ~ : / SP VT NEL} plus seeded random strings to '
         '200 characters incl. lone surrogates, numbers, None; evaluate/type: exhaustive atom texts of '
